@@ -44,7 +44,7 @@ def conformance(sd, sc, obs):
     for line in open(obs):
         o = json.loads(line)
         s = o["script"]
-        if not (s["writers"] == 2 and s["msgs"] == 2 and s["inbound"] == 0 and s["event"] in ("localClose", "peerEof")
+        if not (s["writers"] == 2 and s["msgs"] == 2 and s["inbound"] == 0 and s["event"] in ("localClose", "localCloseReason", "peerEof")
                 and s["place"] in ("start", "idle", "mid")):
             continue
         evs = []
@@ -54,7 +54,7 @@ def conformance(sd, sc, obs):
             if e["ev"] in KEEP:
                 evs.append(e)
         traces.append(dict(id=o["id"], events=evs))
-    traces = traces[:60]
+    traces = traces[:90]
     if not traces:
         return dict(validated=0, rejected=[])
     # negative control: a corrupted history must be rejected, otherwise the trace specification binds nothing
